@@ -100,6 +100,8 @@ func (p *Program) desc(v ssa.Value, fr *Frame, d int) string {
 		}
 		if x.Call.IsInvoke() {
 			args = append([]string{p.desc(x.Call.Value, fr, d+1)}, args...)
+		} else if strings.HasPrefix(name, "dyn:") {
+			name = "dyn[" + p.desc(x.Call.Value, fr, d+1) + "]"
 		}
 		switch name {
 		case "builtin:len":
